@@ -104,7 +104,7 @@ type World struct {
 	curRes   *model.Result
 	curOp    *model.Op
 	Step     int
-	resKeys  [4]ecs.ResID
+	resAcc   [4]*resAccess
 	slotOpen []bool // query slots open before the current op
 	onlyEnt  int    // compareWorld restricted to entity onlyEnt-1 (0: all)
 
